@@ -232,5 +232,26 @@ PROPS["C10"] = dict(
     ],
 )
 
+SCGI_WALK = "F__ZN6cppcms4impl3cgi4scgi21on_headers_chunk_readERKSt10error_codemRKN7booster8callbackIFvS5_EEE.0"
+PROPS["C02"] = dict(
+    title="No request, however malformed, crashes the service or disturbs other requests",
+    level="model_checking",
+    trusted_base=COMMON_TB + ["scgi connection object is raw storage with buffer_/sep_/pool_ constructed (string_pool page size 48 instead of 2048); string_map::add is a recorder (models/stubs_c02.c)",
+                              "request::_data limits and content-type classification are symbolic"],
+    assumptions=["preconditions established by scgi::on_first_read (buffer size > 16, sep_ < 16, buffer_[sep_] == 0) are assumed for the header walk"],
+    outside="event-loop survival, isolation between connections, 'handler called at most once' across the whole service, HTTP and FastCGI front ends' framing (see C01), sockets",
+    obligations=[
+        dict(id="C02.e", harness="C02_scgi.cpp", entry="h_c02e_scgi_walk_safety", ctors=False, clang_flags=["-fno-inline"],
+             drop=["_ZN6cppcms4impl10string_map3addEPKcS3_"], roots=["verif_env_add"], models=["stubs_c02.c"],
+             desc="scgi::on_headers_chunk_read on an arbitrary header block: never reads outside buffer_, completion handler called exactly once",
+             tiers=T(quick=dict(split=[[1, 2, 3]], unwind=20, unwindset={SCGI_WALK: "p0+2", "X_strlen.0": "p0+3", "verif_memcpy.0": "p0+3"}, timeout=900, bounds="17-byte netstring, walked region of 1..3 arbitrary bytes"),
+                     thorough=dict(split=[[1, 2, 3, 4]], unwind=20, unwindset={SCGI_WALK: "p0+2", "X_strlen.0": "p0+3", "verif_memcpy.0": "p0+3"}, timeout=3000, bounds="17-byte netstring, walked region of 1..4 arbitrary bytes"))),
+        dict(id="C02.g", harness="C02_request.cpp", entry="h_c02g_content_start", ctors=False, models=["stubs_httpfile.c"],
+             noop=["multipart_parserC[12]E", "multipart_parser16set_content_type"],
+             desc="request::on_content_start for an arbitrary 64-bit declared length: returns 0/400/413, never throws, allocates exactly the declared length and only within the configured limit; a negative length is refused",
+             tiers=T(quick=dict(unwind=52, timeout=900, bounds="content_length: any 64-bit value; limits 0..16 bytes; content-type class and filter kind symbolic"))),
+    ],
+)
+
 # properties for which no obligation can be built with this technique (reason required)
 NOT_APPLICABLE = {}
